@@ -49,6 +49,12 @@ func (g *G) deposit(p Value, content *Blob) (Int, *Blob) {
 	return Int{}, nil
 }
 
+func (g *G) noteReaderOrig(p Value, cur *Blob) {
+	if ptr, _ := p.(*Value); ptr != nil && g.run.readerOrig[ptr] == nil {
+		g.run.readerOrig[ptr] = cur
+	}
+}
+
 func blobEmpty(b *Blob) bool { return b == nil || len(b.Segs) == 0 }
 
 // readAllFrom drains r. err is nil on EOF, else the reader's error (Iface).
@@ -63,6 +69,7 @@ func (g *G) readAllFrom(r Iface) (*Blob, Value) {
 		types.Identical(r.T, types.NewPointer(P.NamedType("strings", "Reader"))):
 		s := (*r.V.(*Value)).(Struct)
 		b := g.asBlob(s[0])
+		g.noteReaderOrig(r.V, b)
 		s[0] = Slice(nil)
 		return b, nil
 	case types.Identical(r.T, types.NewPointer(P.NamedType("io", "LimitedReader"))):
@@ -258,6 +265,7 @@ func init() {
 			// bytes.Buffer: empty buffer and len(p)==0 returns 0,nil; otherwise EOF
 			return Tuple{Int{}, g.ioEOF()}
 		}
+		g.noteReaderOrig(a[0], cur)
 		n, rest := g.deposit(a[1], cur)
 		if blobEmpty(rest) {
 			s[0] = Slice(nil)
@@ -269,11 +277,59 @@ func init() {
 	reg("(*bytes.Buffer).Read", read)
 	reg("(*bytes.Reader).Read", read)
 	reg("(*strings.Reader).Read", read)
+	// Seek: the reader value holds only the unread rest; the content at position 0 is noted
+	// at the first read. Concrete offsets over byte-term content only.
+	seek := func(g *G, fr *Frame, fn *ssa.Function, a []Value) Value {
+		s, cur := bufContent(g, a[0])
+		ptr := a[0].(*Value)
+		orig := g.run.readerOrig[ptr]
+		if orig == nil {
+			orig = cur
+		}
+		ot, ok1 := orig.byteTerms()
+		ct, ok2 := cur.byteTerms()
+		off, whence := a[1].(Int), a[2].(Int)
+		if !ok1 || !ok2 || off.T != nil || whence.T != nil {
+			g.inconclusive("Seek on a reader with abstract content or a symbolic offset")
+		}
+		pos := int64(len(ot) - len(ct))
+		var abs int64
+		switch int64(whence.C) {
+		case 0:
+			abs = int64(off.C)
+		case 1:
+			abs = pos + int64(off.C)
+		case 2:
+			abs = int64(len(ot)) + int64(off.C)
+		default:
+			return Tuple{Int{}, g.mkError(S("Seek: invalid whence"), Iface{})}
+		}
+		if abs < 0 {
+			return Tuple{Int{}, g.mkError(S("Seek: negative position"), Iface{})}
+		}
+		g.run.readerOrig[ptr] = orig
+		if abs >= int64(len(ot)) {
+			s[0] = Slice(nil)
+		} else {
+			s[0] = blobFromTerms(ot[abs:])
+		}
+		return Tuple{Int{C: uint64(abs)}, Iface{}}
+	}
+	reg("(*bytes.Reader).Seek", seek)
+	reg("(*strings.Reader).Seek", seek)
+	reg("(*bytes.Reader).Size", func(g *G, fr *Frame, fn *ssa.Function, a []Value) Value {
+		_, cur := bufContent(g, a[0])
+		if o := g.run.readerOrig[a[0].(*Value)]; o != nil {
+			return o.Len(g)
+		}
+		return cur.Len(g)
+	})
 	reg("(*bytes.Reader).Reset", func(g *G, fr *Frame, fn *ssa.Function, a []Value) Value {
 		ptr, _ := a[0].(*Value)
 		if ptr == nil {
 			g.goPanic("runtime error: invalid memory address or nil pointer dereference")
 		}
+		delete(g.run.readerOrig, ptr)
 		st := (*ptr).(Struct)
 		st[0] = a[1]
 		return nil
@@ -283,6 +339,7 @@ func init() {
 		if ptr == nil {
 			g.goPanic("runtime error: invalid memory address or nil pointer dereference")
 		}
+		delete(g.run.readerOrig, ptr)
 		st := (*ptr).(Struct)
 		st[0] = g.strToBytes(a[1].(Str))
 		return nil
